@@ -238,7 +238,7 @@ func visitInstr(fr *frame, instr ssa.Instruction) continuation {
 		}
 		in.path.events = append(in.path.events, Event{Chan: ch.id, Val: fr.get(instr.X)})
 	case *ssa.Store:
-		addr, ok := fr.get(instr.Addr).(*value)
+		addr, ok := in.realPtr(fr.get(instr.Addr)).(*value)
 		if !ok {
 			in.checkOpaque(fr.get(instr.Addr))
 		}
@@ -315,7 +315,7 @@ func visitInstr(fr *frame, instr ssa.Instruction) continuation {
 	case *ssa.Next:
 		fr.env.set(instr, fr.get(instr.Iter).(iter).next(in))
 	case *ssa.FieldAddr:
-		p, ok := fr.get(instr.X).(*value)
+		p, ok := in.realPtr(fr.get(instr.X)).(*value)
 		if !ok {
 			in.checkOpaque(fr.get(instr.X))
 		}
@@ -350,7 +350,17 @@ func visitInstr(fr *frame, instr ssa.Instruction) continuation {
 			in.checkOpaque(x)
 			panic(fmt.Sprintf("unexpected x type in IndexAddr: %T", x))
 		}
-		i := in.indexOf(fr.get(instr.Index), len(elems), isSigned(instr.Index.Type()))
+		iv := fr.get(instr.Index)
+		if it, ok := iv.(*Term); ok && !it.IsConst() && constTable(elems) {
+			signed := isSigned(instr.Index.Type())
+			t64 := in.tb.BVConv(it, SBV64, signed)
+			if !in.branch(in.tb.BVULt(t64, in.tb.BV(SBV64, uint64(len(elems))))) {
+				panic(targetPanic{msg: fmt.Sprintf("runtime error: index out of range [symbolic] with length %d", len(elems))})
+			}
+			fr.env.set(instr, &symElemPtr{elems: elems, idx: t64})
+			break
+		}
+		i := in.indexOf(iv, len(elems), isSigned(instr.Index.Type()))
 		fr.env.set(instr, &elems[i])
 	case *ssa.Index:
 		x := fr.get(instr.X)
@@ -424,6 +434,137 @@ func (in *Interp) indexOf(iv value, n int, signed bool) int {
 		panic(targetPanic{msg: fmt.Sprintf("runtime error: index out of range [symbolic] with length %d", n)})
 	}
 	return int(in.concretize(t64, "index"))
+}
+
+// symElemPtr is a lazy pointer &table[idx] with a symbolic in-range index into a table of
+// constants; a load through it becomes an ite chain, any other use concretises the index.
+type symElemPtr struct {
+	elems []value
+	idx   *Term // BV64, known to be < len(elems)
+}
+
+func constTable(elems []value) bool {
+	if len(elems) == 0 || len(elems) > 1024 {
+		return false
+	}
+	return constShape(elems[0]) && sameShapeAll(elems)
+}
+
+func constShape(v value) bool {
+	switch v := v.(type) {
+	case *Term:
+		return v.IsConst()
+	case structure:
+		for _, f := range v {
+			if !constShape(f) {
+				return false
+			}
+		}
+		return true
+	case array:
+		for _, f := range v {
+			if !constShape(f) {
+				return false
+			}
+		}
+		return len(v) <= 8
+	}
+	return false
+}
+
+func sameShapeAll(elems []value) bool {
+	for _, e := range elems[1:] {
+		if !constShape(e) || !sameShape(elems[0], e) {
+			return false
+		}
+	}
+	return true
+}
+
+func sameShape(a, b value) bool {
+	switch a := a.(type) {
+	case *Term:
+		bt, ok := b.(*Term)
+		return ok && bt.sort == a.sort
+	case structure:
+		bs, ok := b.(structure)
+		if !ok || len(bs) != len(a) {
+			return false
+		}
+		for i := range a {
+			if !sameShape(a[i], bs[i]) {
+				return false
+			}
+		}
+		return true
+	case array:
+		bs, ok := b.(array)
+		if !ok || len(bs) != len(a) {
+			return false
+		}
+		for i := range a {
+			if !sameShape(a[i], bs[i]) {
+				return false
+			}
+		}
+		return true
+	}
+	return false
+}
+
+// iteSelect builds elems[idx] for a table of constants of identical shape.
+func (in *Interp) iteSelect(elems []value, idx *Term) value {
+	switch e0 := elems[0].(type) {
+	case *Term:
+		cnt := map[*Term]int{}
+		var dflt *Term
+		for _, e := range elems {
+			et := e.(*Term)
+			cnt[et]++
+			if dflt == nil || cnt[et] > cnt[dflt] {
+				dflt = et
+			}
+		}
+		res := dflt
+		for i := len(elems) - 1; i >= 0; i-- {
+			et := elems[i].(*Term)
+			if et == dflt {
+				continue
+			}
+			res = in.tb.Ite(in.tb.Eq(idx, in.tb.BV(SBV64, uint64(i))), et, res)
+		}
+		return res
+	case structure:
+		out := make(structure, len(e0))
+		col := make([]value, len(elems))
+		for f := range e0 {
+			for i, e := range elems {
+				col[i] = e.(structure)[f]
+			}
+			out[f] = in.iteSelect(col, idx)
+		}
+		return out
+	case array:
+		out := make(array, len(e0))
+		col := make([]value, len(elems))
+		for f := range e0 {
+			for i, e := range elems {
+				col[i] = e.(array)[f]
+			}
+			out[f] = in.iteSelect(col, idx)
+		}
+		return out
+	}
+	panic("iteSelect: bad shape")
+}
+
+// realPtr turns a lazy element pointer into a real one by concretising its index.
+func (in *Interp) realPtr(v value) value {
+	if sp, ok := v.(*symElemPtr); ok {
+		i := in.concretize(sp.idx, "index")
+		return &sp.elems[i]
+	}
+	return v
 }
 
 // indexRead reads elems[i]; a symbolic index into an all-scalar table becomes an ite chain.
